@@ -419,6 +419,55 @@ func checkC01(res *Result) {
 				cl = locals[info.ObjectOf(id)]
 			}
 			if cl == nil {
+				// the element is built by a helper of the package: its returns are this reader's
+				if c, ok := r.Results[0].(*ast.CallExpr); ok {
+					if f := calleeFunc(info, c); f != nil {
+						if hd := S.funcDecl[f]; hd != nil && hd.Body != nil && hd.Recv == nil && S.declPkg[hd] == pm.G.Pkg {
+							// which parameter of the helper receives the raw value
+							var hInput types.Object
+							i := 0
+							if hd.Type.Params != nil {
+								for _, fl := range hd.Type.Params.List {
+									for _, nm := range fl.Names {
+										if i < len(c.Args) {
+											if id, ok := c.Args[i].(*ast.Ident); ok && info.ObjectOf(id) == input {
+												hInput = info.ObjectOf(nm)
+											}
+										}
+										i++
+									}
+								}
+							}
+							okAll := true
+							ast.Inspect(hd.Body, func(m ast.Node) bool {
+								hr, ok := m.(*ast.ReturnStmt)
+								if !ok || len(hr.Results) != 1 {
+									return true
+								}
+								var hcl *ast.CompositeLit
+								if u, ok := hr.Results[0].(*ast.UnaryExpr); ok && u.Op == token.AND {
+									hcl, _ = u.X.(*ast.CompositeLit)
+								}
+								if hcl == nil {
+									okAll = false
+									return true
+								}
+								for _, kv := range hcl.Elts {
+									if k, ok := kv.(*ast.KeyValueExpr); ok && isIdentNamed(k.Key, "unknown") {
+										unknownReturns++
+										if id, ok := k.Value.(*ast.Ident); !ok || hInput == nil || info.ObjectOf(id) != hInput {
+											res.bad("C01-R3", pm.G.Dir, S.pos(hr), "the unknown representation keeps the raw input value verbatim", "unknown is set to "+types.ExprString(k.Value))
+										}
+									}
+								}
+								return true
+							})
+							if okAll {
+								return true
+							}
+						}
+					}
+				}
 				if pm.Functional || !isIdentNamed(r.Results[0], "this") {
 					res.undecided("C01-R3", pm.G.Dir, S.pos(r), "a successful return yields a freshly built element", "returns "+types.ExprString(r.Results[0]))
 				}
